@@ -30,7 +30,9 @@ CHECK = 'check_case'
 SHARD_SIZE = 70
 RULE = ('1..2 generated module classes (2..6 accessibles out of value/target/p1..p3/opt1/cmd with datatypes float, int, '
         'scaled, bool, enum, string, array of int/float, struct; class-level default/value/needscfg/readonly/export/'
-        'visibility/group/missing description; read/write driver methods; optional custom mandatory module property) x '
+        'visibility/group/missing description; read/write driver methods, a write method may take over the pending start '
+        'values of other parameters (pops them from self.writeDict and calls their write methods, like '
+        'frappy.rwhandler.CommonWriteHandler); optional custom mandatory module property) x '
         '1..3 config files with 1..3 Mod() sections each (overlapping names -> merging) x per accessible one of: not '
         'configured, bare value, Param(value, props), Param(props) with props out of min/max/unit/visibility/export/'
         'readonly/group/description/needscfg/default, Group(); values valid, at the limits, outside the limits, of the '
@@ -51,6 +53,9 @@ ASSUMPTIONS = [
     'the poll thread body is run synchronously (frappy.modulebase.mkthread patched) up to the start callback; the '
     'scheduling of the real thread is C13/C15',
     'error messages are only classified by their fixed prefix/shape (kind, item), never compared',
+    'driver write methods are generated: they log the call (= the value is handed to the method) and then run their '
+    'take-over script `for q in takes: if q in self.writeDict: self.write_q(self.writeDict.pop(q))`; the script is given '
+    'to the model as data (p_takes); other ways a driver could touch writeDict are not generated',
 ]
 
 GENMOD = 'frappy_c10gen'
@@ -143,6 +148,7 @@ class _Log:
 
 
 _EVENTS = []
+_TAKEN = []      # [module, writer, taken-over parameter]: nested writes made by take-over scripts (not part of the trace)
 
 
 def build_class(cd, idx):
@@ -179,8 +185,14 @@ def build_class(cd, idx):
         if p.get('optional'):
             continue
         if p.get('has_write'):
-            def wf(self, value, _n=n):
+            def wf(self, value, _n=n, _takes=tuple(p.get('takes') or ())):
                 _EVENTS.append(['write', self.name, _n, G.tag(value)])
+                # take over pending start values of other parameters (what CommonWriteHandler / drivers needing a
+                # certain order do): the entry is removed from writeDict, so nobody else must write it again
+                for q in _takes:
+                    if q in self.writeDict:
+                        _TAKEN.append([self.name, _n, q])
+                        getattr(self, 'write_' + q)(self.writeDict.pop(q))
                 return value
             ns['write_' + n] = wf
         if p.get('has_read'):
@@ -217,7 +229,7 @@ def describe_class(cls, cd):
              'predef': PREDEFINED_ACCESSIBLES.get(n) is not None and isinstance(a, PREDEFINED_ACCESSIBLES[n]),
              'descr': pv.get('description'), 'export': a.export, 'visibility': int(a.visibility), 'group': a.group,
              'gd': None, 'unit': '', 'dtdefault': ['none'], 'readonly': False, 'needscfg': False, 'default': None,
-             'value': None, 'has_write': False, 'wfunc': False, 'polled': False}
+             'value': None, 'has_write': False, 'wfunc': False, 'polled': False, 'takes': []}
         if not iscmd:
             r['readonly'] = bool(a.readonly)
             r['needscfg'] = bool(a.needscfg)
@@ -234,6 +246,8 @@ def describe_class(cls, cd):
             if not a.optional:
                 r['has_write'] = hasattr(cls, 'write_' + n) or ('write_' + n) in cls.wrappedAttributes
                 r['wfunc'] = hasattr(cls, 'write_' + n)
+                if r['wfunc'] and p.get('has_write'):
+                    r['takes'] = [str(q) for q in (p.get('takes') or [])]
                 rf = cls.wrappedAttributes.get('read_' + n)
                 r['polled'] = bool(rf is not None and getattr(rf, 'poll', False))
         res.append(r)
@@ -353,6 +367,7 @@ def run_case(case):
     old_sig = (signal.getsignal(signal.SIGINT), signal.getsignal(signal.SIGTERM))
     old_err = sys.stderr
     del _EVENTS[:]
+    del _TAKEN[:]
     snaps = {}
     traces = {}
     try:
@@ -420,6 +435,7 @@ def run_case(case):
                     tr.append(e)
                 obs['mods'].append([name, dict(snaps[name], kind='created', trace=tr,
                                                started_seen=any(e[0] == 'started' for e in traces[name]),
+                                               taken=[t[1:] for t in _TAKEN if t[0] == name],
                                                in_errors=name in per_mod)])
             elif name in per_mod:
                 obs['mods'].append([name, {'kind': per_mod[name][0],
@@ -469,12 +485,13 @@ def enc_param(r):
     return ('{| p_name := %s; p_iscmd := %s; p_optional := %s; p_predef := %s; p_dt := %s; p_unit := %s; '
             'p_dtdefault := %s; p_descr := %s; p_readonly := %s; p_needscfg := %s; p_export := %s; p_visibility := %s; '
             'p_group := %s; p_default := %s; p_value := %s; p_has_write := %s; p_wfunc := %s; p_polled := %s; '
-            'p_uninit := false |}' % (
+            'p_uninit := false; p_takes := %s |}' % (
                 gs(r['name']), gal.boolean(r['iscmd']), gal.boolean(r['optional']), gal.boolean(r['predef']),
                 gopt(r['gd'], lambda x: x), gs(r['unit']), G.gal_val(r['dtdefault']), gopt(r['descr'], gs),
                 gal.boolean(r['readonly']), gal.boolean(r['needscfg']), enc_expo(r['export']), gal.z(r['visibility']),
                 gs(r['group']), gopt(r['default'], G.gal_val), gopt(r['value'], G.gal_val),
-                gal.boolean(r['has_write']), gal.boolean(r['wfunc']), gal.boolean(r['polled'])))
+                gal.boolean(r['has_write']), gal.boolean(r['wfunc']), gal.boolean(r['polled']),
+                gal.lst(r.get('takes') or [], gs)))
 
 
 def enc_class(c):
@@ -720,6 +737,16 @@ def gen_class(rng):
             p.pop('default', None)
             p.pop('value', None)
         params.append(p)
+    # take-over scripts: a write method pops pending start values of other parameters from writeDict and writes them
+    takeover = len(params) >= 2 and rng.random() < 0.3
+    if takeover:
+        for p in rng.sample(params, 2):
+            if p.get('dt') and rng.random() < 0.8:
+                p['has_write'] = True
+    for p in params:
+        if p.get('has_write') and rng.random() < (0.7 if takeover else 0.1):
+            pool = [q['name'] for q in params if q is not p] * 3 + [p['name'], 'p9']
+            p['takes'] = [rng.choice(pool) for _ in range(rng.randint(1, 3))]
     if rng.random() < 0.4:
         params.append({'name': rng.choice(['cmd', 'stop']), 'kind': 'cmd', 'descr': 'a command'})
     if rng.random() < 0.2:
@@ -727,11 +754,11 @@ def gen_class(rng):
                        'optional': True, 'readonly': True})
     r = rng.random()
     return {'params': params, 'custom': 'mand' if r < 0.15 else 'opt' if r < 0.3 else None,
-            'enablepoll': rng.random() < 0.85}
+            'enablepoll': rng.random() < 0.85, 'takeover': takeover}
 
 
 def gen_props(rng, p, n):
-    """n valid parameter property overrides"""
+    """n parameter property overrides (valid, except that a configured default may have the wrong type)"""
     d = p.get('dt')
     lf = numeric_leaf(d) if d else None
     cands = ['visibility', 'export', 'readonly', 'group', 'description', 'needscfg']
@@ -758,7 +785,11 @@ def gen_props(rng, p, n):
         elif k == 'needscfg':
             v = rng.choice([True, False])
         elif k == 'default':
-            v = gen_valid(rng, d)
+            # mostly valid; now and then of the wrong type (must be rejected like a wrong value) or outside the limits
+            r = rng.random()
+            v = gen_valid(rng, d) if r < 0.8 else gen_wrong(rng, d) if r < 0.93 else gen_outside(rng, d)
+            if v is None and r >= 0.93:
+                v = gen_valid(rng, d)
         elif k == 'unit':
             v = rng.choice(['mK', 'A', '$/min', ''])
         else:
@@ -817,7 +848,7 @@ def gen_module(rng, name, ci, cd):
             continue
         d = p.get('dt')
         need = p.get('needscfg') or p.get('descr') is None
-        if r < (0.2 if need else 0.45):
+        if r < (0.2 if need or cd.get('takeover') else 0.45):
             continue
         if d is None:
             kws.append([n, rng.choice([['bare', G.tag(5)], ['param', None, [['min', G.tag(1)]]],
@@ -936,7 +967,7 @@ def gen_case(rng):
 
 def gen_cases(seed, tier):
     rng = random.Random(seed * 7919 + 10)
-    n = {'quick': 1800, 'thorough': 15000, 'search': 12000}.get(tier, 2600)
+    n = {'quick': 1600, 'thorough': 15000, 'search': 12000}.get(tier, 2600)
     return [gen_case(rng) for _ in range(n)]
 
 
@@ -1460,6 +1491,10 @@ def outcome_labels(case, obs):
             labs.append('err-' + e[0])
         if m['kind'] == 'created':
             labs.append(f"writes-{min(3, len([e for e in m['trace'] if e[0] == 'write']))}")
+            if m.get('taken'):
+                labs.append('pending-value-taken-over')
+                if any(ev[0] == 'write' and ev[2] in [t[1] for t in m['taken']] for ev in m['trace']):
+                    labs.append('taken-over-value-reached-driver-method')
     return labs
 
 
@@ -1467,6 +1502,7 @@ def sample_repr(case, obs):
     return {'files': [file_text(f) for f in case['files']],
             'classes': [[(p['name'], p['kind'], (p.get('dt') or {}).get('t')) for p in c['params']] for c in case['classes']],
             'modules': [[n, m['kind'], m.get('errs', m.get('trace'))] for n, m in obs.get('mods', [])],
+            'takes': [[(p['name'], p['takes']) for p in c['params'] if p.get('takes')] for c in case['classes']],
             'started': obs.get('started'), 'load': obs.get('load')}
 
 
@@ -1474,6 +1510,12 @@ def shrink(case):
     """smaller cases: drop a file, a module section, a keyword, a property of a Param"""
     def clone():
         return json.loads(json.dumps(case))
+    for ci, cd in enumerate(case['classes']):
+        for pi, p in enumerate(cd['params']):
+            for k in range(len(p.get('takes') or [])):
+                c = clone()
+                del c['classes'][ci]['params'][pi]['takes'][k]
+                yield c
     if len(case['files']) > 1:
         for i in range(len(case['files'])):
             c = clone()
